@@ -562,7 +562,7 @@ impl Out {
         self.count("violations");
         self.event(&json!({"violation": j}));
         self.flush();
-        if self.violations.len() < 200 {
+        if self.violations.len() < std::env::var("VH_VIOL_CAP").ok().and_then(|x| x.parse().ok()).unwrap_or(200) {
             self.violations.push(j);
         }
     }
